@@ -59,6 +59,7 @@ K_TAO_DUP = 'time_as_observations,duplicate-by-values'
 K_TSORT = 'TemporalDataset.sort_by,ties'
 K_BIN_LIST = 'bin_time,list-typed-time-descriptor'
 K_ODD_SINGLE = 'odd_even_split,single-value'
+K_SUBT_EMPTY = 'subset_time,no-time-point-in-range'
 
 
 # =====================================================================================================
@@ -504,8 +505,14 @@ def _tag1(op, v):
         return 'ok'
     if not v.temporal:
         return None
-    if k in ('split_time', 'subset_time'):
+    if k == 'split_time':
         return 'ok' if op[1] in v.tm else None
+    if k == 'subset_time':
+        if op[1] not in v.tm:
+            return None
+        if not any(op[2] <= v.tm[op[1]][t] <= op[3] for t in v.times):
+            return K_SUBT_EMPTY       # the expected result is the empty subset
+        return 'ok'
     if k == 'bin_time':
         by = op[1]
         if set(v.tm) != {by}:
@@ -583,6 +590,8 @@ def _candidates(cur, rich=True):
             ops.append(['subset_time', by, sv[len(sv) // 2], sv[-1]])
             if rich:
                 ops.append(['subset_time', by, vals[0], vals[0]])
+                if by == 'time':
+                    ops.append(['subset_time', by, -5.0, -4.0])         # no time point in range: the empty subset
     if set(v.tm) == {'time'}:
         tv = [float(v.tm['time'][t]) for t in v.times]
         nt = len(tv)
@@ -748,10 +757,10 @@ def orc_labels(case):
                 if any(_eq(u, s) for s in seen):
                     return f'two parts hold items labelled {u!r}'
                 seen.append(u)
-                if not _eq(u, distinct[pi]):
-                    return f'part {pi} holds label {u!r}; order of first occurrence is {distinct}'
                 if 'lab' in p.descriptors and not _eq(p.descriptors['lab'], u):
                     return f"part {pi} is labelled descriptors['lab']={p.descriptors['lab']!r} but its items carry {u!r}"
+                if not _eq(u, distinct[pi]):
+                    return f'part {pi} holds label {u!r}; order of first occurrence is {distinct}'
                 if axis == 'channel' or (axis == 'obs' and not temporal):
                     if 'lab' not in p.descriptors:
                         return f'part {pi} is not labelled with the value it was split by'
